@@ -27,6 +27,7 @@ class C11Sim(C02Sim):
                 left.extend(repr(x)[:40] for x in q.peek_all())
         r["queued"] = left
         r["thread_excs"] = list(b.thread_excs) if b is not None else []
+        r["open_pools"] = len(getattr(self, "open_pools", None) or [])
         r["findings"] = list(self.hist_findings)
         self.hist_findings = []
         if self.folder is not None:
@@ -101,6 +102,9 @@ class C11(Check):
                                                            f"fault-free run are at rows {boundaries}; prefix equal: {prefix_equal(snap, b0)}")
         if r0["live_threads"]:
             res.add("thread-left-running", site, f"{tag}: threads {r0['live_threads']} still alive after calibrate() raised")
+        if r0.get("open_pools"):
+            res.add("worker-pool-left-open", site, f"{tag}: {r0['open_pools']} managed worker pool(s) entered by calibrate() were not exited after it raised "
+                                                   "(their workers stay alive)")
         if r0["queued"]:
             res.add("message-left-queued", site, f"{tag}: queues hold {r0['queued']} after calibrate() raised")
         rest = r0.get("restored")
@@ -122,6 +126,8 @@ class C11(Check):
                     res.add("continuation-misaligned", f"{site}:{c}", f"{tag}: after the next calibrate({m}): {d}")
                 if r1["snap"]["batch_index"] != snap["batch_index"] + m or not prefix_equal(snap, r1["snap"]):
                     res.add("continuation-inconsistent", site, f"{tag}: next calibrate({m}) moved batch index {snap['batch_index']} -> {r1['snap']['batch_index']}")
+                if r1.get("open_pools"):
+                    res.add("worker-pool-left-open", f"{site}:continuation", f"{tag}: after the continuation {r1['open_pools']} managed worker pool(s) are still open")
                 if r1["live_threads"] or r1["queued"]:
                     res.add("thread-left-running", f"{site}:continuation", f"{tag}: after the continuation threads {r1['live_threads']} queue {r1['queued']}")
         elif len(scn["ops"]) > 1:
